@@ -278,7 +278,8 @@ def compile_expressions(
         _compute_option_signature(p) + _compilation_signature(cffi_extra_compile_args, cffi_debug),
     )
     expr_names = [
-        ffcx.naming.expression_name(expression, module_name) for expression in expressions
+        ffcx.naming.expression_name(expression, module_name, i)
+        for i, expression in enumerate(expressions)
     ]
 
     if cache_dir is not None:
